@@ -1,4 +1,7 @@
 // C18: formatted output/input follow C printf/scanf semantics extended to MPIR types
+#include <obstack.h>
+#define obstack_chunk_alloc malloc
+#define obstack_chunk_free free
 #include "../harness/gen.hpp"
 #include <cstdio>
 #include <cstdarg>
@@ -46,12 +49,15 @@ static std::string layout_int(const Spec& s, bool negative, std::string digits /
 static std::string digits_of(const Int& v, char conv) { int base = (conv == 'o') ? 8 : (conv == 'x' || conv == 'X') ? 16 : 10; return ref::to_string(v.abs(), base, conv == 'X'); }
 
 // ---- calling the gmp_*printf family with a run-time shape ---------------------------------------
-enum Api { A_SPRINTF, A_SNPRINTF, A_ASPRINTF, A_FPRINTF, A_VSPRINTF, A_VSNPRINTF, A_VASPRINTF, A_VFPRINTF, A_NAPI };
-static const char* API_NAME[] = {"gmp_sprintf", "gmp_snprintf", "gmp_asprintf", "gmp_fprintf", "gmp_vsprintf", "gmp_vsnprintf", "gmp_vasprintf", "gmp_vfprintf"};
+enum Api { A_SPRINTF, A_SNPRINTF, A_ASPRINTF, A_FPRINTF, A_VSPRINTF, A_VSNPRINTF, A_VASPRINTF, A_VFPRINTF, A_OBSTACK, A_VOBSTACK, A_NAPI };
+static const char* API_NAME[] = {"gmp_sprintf", "gmp_snprintf", "gmp_asprintf", "gmp_fprintf", "gmp_vsprintf", "gmp_vsnprintf", "gmp_vasprintf", "gmp_vfprintf", "gmp_obstack_printf", "gmp_obstack_vprintf"};
 struct Out { std::string s; int ret = 0; bool trunc_checked = false; };
 static int v_sprintf(char* b, const char* f, ...) { va_list ap; va_start(ap, f); int r = gmp_vsprintf(b, f, ap); va_end(ap); return r; }
 static int v_snprintf(char* b, size_t n, const char* f, ...) { va_list ap; va_start(ap, f); int r = gmp_vsnprintf(b, n, f, ap); va_end(ap); return r; }
 static int v_asprintf(char** p, const char* f, ...) { va_list ap; va_start(ap, f); int r = gmp_vasprintf(p, f, ap); va_end(ap); return r; }
+static int v_obstack(struct obstack* ob, const char* f, ...) { va_list ap; va_start(ap, f); int r = gmp_obstack_vprintf(ob, f, ap); va_end(ap); return r; }
+static int v_sscanf(const char* t, const char* f, ...) { va_list ap; va_start(ap, f); int r = gmp_vsscanf(t, f, ap); va_end(ap); return r; }
+static int v_fscanf(FILE* fp, const char* f, ...) { va_list ap; va_start(ap, f); int r = gmp_vfscanf(fp, f, ap); va_end(ap); return r; }
 static int v_fprintf(FILE* fp, const char* f, ...) { va_list ap; va_start(ap, f); int r = gmp_vfprintf(fp, f, ap); va_end(ap); return r; }
 // expected: the full output string; snsize: size argument for the snprintf forms (SIZE_MAX = full)
 template <class... A> static Out call_api(Api api, size_t expect_len, size_t snsize, const char* fmt, A... a) {
@@ -62,6 +68,9 @@ template <class... A> static Out call_api(Api api, size_t expect_len, size_t sns
       o.ret = api == A_SNPRINTF ? gmp_snprintf(n ? b : nullptr, n, fmt, a...) : v_snprintf(n ? b : nullptr, n, fmt, a...); if (n) o.s.assign(b, strnlen(b, n)); if (n && o.s.size() == n) o.s += "<NO-TERMINATOR>"; free(b); o.trunc_checked = true; break; }
     case A_ASPRINTF: case A_VASPRINTF: { char* p = nullptr; o.ret = api == A_ASPRINTF ? gmp_asprintf(&p, fmt, a...) : v_asprintf(&p, fmt, a...); if (!p) { o.s = "<NULL>"; break; } o.s = p; auto it = g_live->find(p);
       if (it == g_live->end()) g_alloc_err = "gmp_asprintf block did not come from the installed allocator"; else if (it->second != o.s.size() + 1) g_alloc_err = "gmp_asprintf block is " + std::to_string(it->second) + " bytes for a string of " + std::to_string(o.s.size()); if (it != g_live->end()) rec_free(p, it->second); break; }
+    case A_OBSTACK: case A_VOBSTACK: { struct obstack ob; obstack_init(&ob); obstack_grow(&ob, "pre:", 4);   // appended to the object being grown; no terminator is written
+      o.ret = api == A_OBSTACK ? gmp_obstack_printf(&ob, fmt, a...) : v_obstack(&ob, fmt, a...); size_t n = obstack_object_size(&ob); char* base = (char*)obstack_finish(&ob);
+      if (n < 4 || memcmp(base, "pre:", 4)) o.s = "<PREVIOUS-OBJECT-CONTENT-LOST>"; else o.s.assign(base + 4, n - 4); obstack_free(&ob, nullptr); break; }
     default: { char* mem = nullptr; size_t ml = 0; FILE* fp = open_memstream(&mem, &ml); o.ret = api == A_FPRINTF ? gmp_fprintf(fp, fmt, a...) : v_fprintf(fp, fmt, a...); fclose(fp); o.s.assign(mem, ml); free(mem); break; }
   }
   return o;
@@ -157,7 +166,8 @@ static void case_F(ByteSource& in, CaseInfo& ci) {
 static void case_scan(ByteSource& in, CaseInfo& ci) {
   // print values with the output functions, read them back; return = C-style count of assigned fields
   unsigned f = in.pick({4, 3, 3, 2}); bool file = in.flag(); ci.label(file ? "gmp_fscanf" : "gmp_sscanf"); ci.nontrivial = true;
-  auto scan = [&](const std::string& text, const char* fmt, auto... a) -> int { if (!file) return gmp_sscanf(text.c_str(), fmt, a...); std::string t = text; if (t.empty()) { FILE* fp = fopen("/dev/null", "r"); int r = gmp_fscanf(fp, fmt, a...); fclose(fp); return r; } FILE* fp = fmemopen((void*)t.data(), t.size(), "r"); int r = gmp_fscanf(fp, fmt, a...); fclose(fp); return r; };
+  bool vform = in.flag(); if (vform) ci.label(file ? "gmp_vfscanf" : "gmp_vsscanf");
+  auto scan = [&](const std::string& text, const char* fmt, auto... a) -> int { if (!file) return vform ? v_sscanf(text.c_str(), fmt, a...) : gmp_sscanf(text.c_str(), fmt, a...); std::string t = text; if (t.empty()) { FILE* fp = fopen("/dev/null", "r"); int r = vform ? v_fscanf(fp, fmt, a...) : gmp_fscanf(fp, fmt, a...); fclose(fp); return r; } FILE* fp = fmemopen((void*)t.data(), t.size(), "r"); int r = vform ? v_fscanf(fp, fmt, a...) : gmp_fscanf(fp, fmt, a...); fclose(fp); return r; };
   if (f == 0) { static const char* cvs[] = {"d", "i", "x", "o", "X"}; unsigned c = (unsigned)in.range(0, 4); Int A = gen_int(in, 4), B = gen_int(in, 4); Z a, b, ra, rb; mpz_from_int(a, A); mpz_from_int(b, B); bool hash = c == 1; std::string pf = std::string("%") + (hash ? "#" : "") + "Z" + (c == 1 ? "x" : cvs[c]);
     char* p1 = nullptr; gmp_asprintf(&p1, (pf + " text %d " + pf).c_str(), a.z, 77, b.z); std::string text = p1; rec_free(p1, text.size() + 1); std::string sf = std::string("%Z") + cvs[c] + " text %d %Z" + cvs[c] + "%n"; int mid = 0, n = -1;
     ci.d("scan Z text=\"%.100s\" fmt=\"%s\"", text.c_str(), sf.c_str()); int r = scan(text, sf.c_str(), ra.z, &mid, rb.z, &n);
@@ -205,7 +215,7 @@ static void fixed_case(unsigned k, CaseInfo& ci) {
 static void check(ByteSource& in, CaseInfo& ci) { switch (in.pick({10, 5, 4, 4})) { case 0: case_Z(in, ci); break; case 1: case_QNM(in, ci); break; case 2: case_F(in, ci); break; default: case_scan(in, ci); break; } }
 namespace eng {
 PropDef g_prop = {"C18",
-  "Cases: one call of a member of the gmp_printf family (sprintf, snprintf with size 0..len+1 into a buffer of exactly that many bytes, asprintf, fprintf, and the four va_list forms) on a format made of flags subset of {-,+,space,#,0} x width {none,1,5,20,* positive,* negative} x precision {none,.0,.3,.25,.* (also negative),'.' alone} x conversion d,i,o,x,X for %Z (values 0,+-1,..,LONG_MIN/MAX, random longs, multi-limb), %Q, %N (negative size), %M (d,i,o,u,x,X), and e,f,g,E,G for %F, alone or embedded between standard conversions (%d %s %c %% %ld %5.2f %n). Oracle: libc snprintf with %l and the equal long value (byte-identical) wherever C gives the conversion a meaning; a layout model of C's padding/sign/prefix/precision rules, validated against libc in the same run, for signed o/x/X and values that do not fit a long; libc %l for %M; libc double output for %F on dyadic values whose expansion is exact at the requested precision; return value = full length, truncation = first size-1 bytes + NUL, asprintf block = length+1 (recording allocator), %n. Input: gmp_sscanf / gmp_fscanf read back what the output functions printed (%Zd %Zi %Zx %Zo %Qd %Qi %Ff %Fe %Fg %Fa, %n, %*Zd), C-style count, EOF and matching failure. Not asserted: '#' with precision 0 on zero, '0' flag with %Q. Non-trivial: every case. Distinct = hash of all decoded choices.",
-  check, setup, {"Z:compared_with_libc", "Z:big_value_model", "Z:signed_oxX_model", "Z:empty_precision", "%Q", "%N", "%M", "%F", "gmp_snprintf", "gmp_asprintf", "gmp_vsnprintf", "gmp_fprintf", "gmp_sscanf", "gmp_fscanf", "scan:eof", "flag0_with_minus", "flag0_with_precision"}, fixed_case, sweep_count, sweep_item,
+  "Cases: one call of a member of the gmp_printf family (sprintf, snprintf with size 0..len+1 into a buffer of exactly that many bytes, asprintf, fprintf, obstack_printf appended to an object being grown, and the five va_list forms) on a format made of flags subset of {-,+,space,#,0} x width {none,1,5,20,* positive,* negative} x precision {none,.0,.3,.25,.* (also negative),'.' alone} x conversion d,i,o,x,X for %Z (values 0,+-1,..,LONG_MIN/MAX, random longs, multi-limb), %Q, %N (negative size), %M (d,i,o,u,x,X), and e,f,g,E,G for %F, alone or embedded between standard conversions (%d %s %c %% %ld %5.2f %n). Oracle: libc snprintf with %l and the equal long value (byte-identical) wherever C gives the conversion a meaning; a layout model of C's padding/sign/prefix/precision rules, validated against libc in the same run, for signed o/x/X and values that do not fit a long; libc %l for %M; libc double output for %F on dyadic values whose expansion is exact at the requested precision; return value = full length, truncation = first size-1 bytes + NUL, asprintf block = length+1 (recording allocator), %n. Input: gmp_sscanf / gmp_fscanf read back what the output functions printed (%Zd %Zi %Zx %Zo %Qd %Qi %Ff %Fe %Fg %Fa, %n, %*Zd), C-style count, EOF and matching failure. Not asserted: '#' with precision 0 on zero, '0' flag with %Q. Non-trivial: every case. Distinct = hash of all decoded choices.",
+  check, setup, {"Z:compared_with_libc", "Z:big_value_model", "Z:signed_oxX_model", "Z:empty_precision", "%Q", "%N", "%M", "%F", "gmp_snprintf", "gmp_asprintf", "gmp_vsnprintf", "gmp_fprintf", "gmp_obstack_printf", "gmp_sscanf", "gmp_fscanf", "gmp_vsscanf", "gmp_vfscanf", "scan:eof", "flag0_with_minus", "flag0_with_precision"}, fixed_case, sweep_count, sweep_item,
   "the full cross product of the 32 flag subsets of {-,+,space,#,0} x width {none,1,5,20,* = 9,* = -9} x precision {none,.0,.3,.25,.* = 4,.* = -2,'.' alone} x conversion {d,i,o,x,X} x 12 long values (0,+-1,+-7,+-123,65535,LONG_MAX,LONG_MIN,1000000007,-99999) through gmp_snprintf %Z: compared with libc where C gives the conversion a meaning, with the libc-validated layout model otherwise (80,640 format/value pairs)"};
 }
